@@ -131,6 +131,27 @@ CHECKS["C08"] = dict(
     technique="TLC-generated hostile inputs + sanitizer/valgrind replay + TLC trace validation",
     design="6/C08")
 
+CHECKS["C06"] = dict(
+    level="model_checking",
+    text="TLC explores every assignment of faults (intact, body damaged, mark destroyed, deleted-data) to the ID and data fields of a "
+         "3-sector track and every truncation point, for the FM and MFM decoder models (about 200k states), checking that every yielded "
+         "sector pairs an address with the payload recorded under it, both intact; every case is turned into a real bit-stream with "
+         "faults placed at bit level and decoded by the real decoders (ASan+UBSan), with adversarial raw streams and whole damaged "
+         "HFE / HxC MFM images read back through dfs; TraceTrack.tla judges the yields and reads.",
+    note="Item-level model: a field is a unit; the ID CRC of a yield is observed through the fault assignment, the data CRC is recomputed.",
+    technique="TLA+ model checking (TLC) + behaviour replay + TLC trace validation",
+    design="6/C06")
+CHECKS["C05"] = dict(
+    level="model_checking",
+    text="TLC checks the fault-free decoder behaviours (every sector yielded once, in order) and the HFEv3 opcode interpreter with block "
+         "de-interleaving against 'opcodes are transparent' for every placement of up to two opcodes; seeded discs are recorded as HFE v1, "
+         "HFE v3 (opcode placements from the TLC cases mapped onto real 256-byte block boundaries) and HxC MFM with varied gaps, sync "
+         "lengths, sector order, skew, 10/16/18 sectors, one and two sides, and every command's output is compared with the sector dump; "
+         "TraceFlux.tla judges the comparisons.",
+    note="The flux encoder is ours (lib/mkflux.py); SKIPBITS is a listed known finding.",
+    technique="TLA+ model checking (TLC) + differential behaviour replay + TLC trace validation",
+    design="6/C05")
+
 PENDING_REASON = "check not built yet in this session (work in progress; design in DESIGN.md section 6)"
 
 
